@@ -530,7 +530,7 @@ def run(tier, seed):
             break
     for k in ('told_points', 'env_pressure_history_only', 'env_natural_reorg', 'env_clean_restart', 'reorgs_carried_out',
               'trace_told_points', 'trace_told_with_nonempty_touched', 'trace_reorg_events', 'trace_blocks_backed_out'):
-        if not res.stats.get(k):
+        if not res.stats.get(k) and not res.violations and not res.disagreements and not common.out_of_time():
             res.harness_errors.append(f'sync suite never reached: {k}')
     return res
 
